@@ -248,7 +248,18 @@ def run_class(cls, what=None, limit=None, first_only=False):
     gen = SCENARIOS[cls]()
     cases = 0
     failures = []
-    for desc, ds, ref, probe in gen:
+    while True:
+        try:
+            desc, ds, ref, probe = next(gen)
+        except StopIteration:
+            break
+        except Exception as e:      # noqa  -- building a scenario pipeline must not fail on the unchanged tree
+            import traceback
+            where = traceback.extract_tb(e.__traceback__)[-1]
+            failures.append({'scenario': 'building scenario #%d of %s' % (cases + 1, cls), 'class': cls,
+                             'mismatches': [{'clause': 'construction', 'observed': '%s: %s (%s:%d)' % (type(e).__name__, str(e)[:120], where.filename.split('/')[-1], where.lineno),
+                                             'expected': 'the pipeline can be built'}]})
+            break
         cases += 1
         if limit and cases > limit:
             break
